@@ -58,6 +58,34 @@ theorem Safe.mapM {α} {wf : α → Prop} {f : T → PM α} :
     · exact hv
     · exact hvs.2 x hx
 
+/-- collecting a non-empty list of pairs gives a non-empty list of values -/
+theorem Safe.mapM_ne {α} {wf : α → Prop} {f : T → PM α} (x : T) (xs : List T)
+    (h : ∀ y ∈ x :: xs, Safe wf (f y)) :
+    Safe (fun l => l ≠ [] ∧ ∀ v ∈ l, wf v) ((x :: xs).mapM f) := by
+  refine (Safe.mapM (x :: xs) h).mono ?_
+  intro vs hvs
+  refine ⟨?_, hvs.2⟩
+  intro e; subst e; simp at hvs
+
+/-- `g ~ (sep ~ g)*`: a non-empty list of pairs of `g` -/
+theorem conf_sep_list {g : G} {sep : List Char} {P : T → Prop}
+    (hg : ∀ k t, Conf g false k t → ∃ x, k = [x] ∧ P x) {k : List T} {t : List Char}
+    (h : Conf (.seq g (.star (.seq (.str sep) g))) false k t) :
+    ∃ x xs, k = x :: xs ∧ ∀ y ∈ x :: xs, P y := by
+  obtain ⟨k1, t1, k2, t2, h1, h2, rfl, -⟩ := h
+  obtain ⟨x1, rfl, hx1⟩ := hg _ _ h1
+  have hall : ∀ x ∈ k2, P x := by
+    refine StarConf.forall_mem ?_ h2
+    intro k t hkt x hx
+    obtain ⟨k3, t3, k4, t4, ⟨rfl, -⟩, h4, rfl, -⟩ := hkt
+    obtain ⟨x4, rfl, hx4⟩ := hg _ _ h4
+    simp at hx; subst hx; exact hx4
+  refine ⟨x1, k2, rfl, ?_⟩
+  intro y hy
+  rcases List.mem_cons.mp hy with rfl | hy
+  · exact hx1
+  · exact hall y hy
+
 /-- a tree of rule `r` on which `build` is safe -/
 @[reducible] def Good {α} (r : PRule) (build : T → PM α) (wf : α → Prop) (t : T) : Prop :=
   t.rule = r ∧ Safe wf (build t)
@@ -149,6 +177,52 @@ elab "conf_destruct" "[" ls:ident,* "]" : tactic => do
   let names ← ls.getElems.mapM fun i => realizeGlobalConstNoOverloadWithInfo i
   liftMetaTactic fun g => destructGoal names g
 
+/-! ### optional punctuation: no pairs, text irrelevant (kept folded to avoid case splits) -/
+
+/-- the text of an expression that produces no pairs (kept folded: never destructured) -/
+def TextOf (e : G) (q : Bool) (t : List Char) : Prop := Conf e q [] t
+
+theorem conf_textOnly {e : G} {q : Bool} (hk : ∀ k t, Conf e q k t → k = []) {k : List T} {t : List Char} :
+    Conf e q k t ↔ k = [] ∧ TextOf e q t := by
+  constructor
+  · intro h
+    have := hk k t h
+    subst this
+    exact ⟨rfl, h⟩
+  · rintro ⟨rfl, h⟩; exact h
+
+theorem conf_opt_str (s : List Char) {q : Bool} {k : List T} {t : List Char} :
+    Conf (.opt (.str s) : G) q k t ↔ k = [] ∧ TextOf (.opt (.str s)) q t := by
+  apply conf_textOnly
+  intro k t h
+  rcases h with h | h
+  · exact h.1
+  · exact h.1
+
+theorem conf_opt_space {q : Bool} {k : List T} {t : List Char} :
+    Conf (.opt g_space : G) q k t ↔ k = [] ∧ TextOf (.opt g_space) q t := conf_opt_str _
+
+theorem conf_opt_sep {q : Bool} {k : List T} {t : List Char} :
+    Conf (.opt g_separator_for_readability : G) q k t ↔ k = [] ∧ TextOf (.opt g_separator_for_readability) q t := by
+  apply conf_textOnly
+  intro k t h
+  rcases h with h | h | h | h
+  all_goals exact h.1
+
+theorem conf_comma_or_space {q : Bool} {k : List T} {t : List Char} :
+    Conf (.alt (.str [',']) g_space : G) q k t ↔ k = [] ∧ TextOf (.alt (.str [',']) g_space) q t := by
+  apply conf_textOnly
+  intro k t h
+  rcases h with h | h
+  all_goals exact h.1
+
+/-- as `conf_unfold`, for the non-lexical rules: optional punctuation is not taken apart -/
+macro "conf_unfoldk" "[" ts:Lean.Parser.Tactic.simpLemma,* "]" "at" h:ident : tactic =>
+  `(tactic| simp only [↓conf_opt_str, ↓conf_opt_space, ↓conf_opt_sep, ↓conf_comma_or_space,
+      Conf, Bool.false_eq_true, Bool.or_true, Bool.or_false,
+      Bool.or_self, ↓reduceIte, List.append_nil, List.nil_append, List.cons_append, List.append_assoc,
+      PExpr.rep, PExpr.plus, $ts,*] at $h:ident)
+
 /-- unfold `Conf` on the given grammar constants in hypothesis `h`, normalising lists and modes -/
 macro "conf_unfold" "[" ts:Lean.Parser.Tactic.simpLemma,* "]" "at" h:ident : tactic =>
   `(tactic| simp only [Conf, char_le_iff, Char.reduceToNat, Bool.false_eq_true, Bool.or_true, Bool.or_false,
@@ -164,6 +238,12 @@ syntax "build_simp" "[" (Lean.Parser.Tactic.simpStar <|> Lean.Parser.Tactic.simp
 macro_rules
   | `(tactic| build_simp [$ts,*]) => `(tactic| simp [assertRule, rule_node, text_node, kids_node, ok_bind, error_bind, panic_def, unexpected_def,
       u8Bound, u16Bound, i64Bound, $ts,*])
+
+/-- as `build_simp`, with `simp only` (keeps `mapM` and the loops folded) -/
+syntax "build_simp_only" "[" (Lean.Parser.Tactic.simpStar <|> Lean.Parser.Tactic.simpErase <|> Lean.Parser.Tactic.simpLemma),* "]" : tactic
+macro_rules
+  | `(tactic| build_simp_only [$ts,*]) => `(tactic| simp only [assertRule, rule_node, text_node, kids_node, ok_bind,
+      error_bind, panic_def, unexpected_def, ↓reduceIte, List.cons_append, List.nil_append, $ts,*])
 
 /-- one `let x ← e` of a do-block: `e` is safe by a hypothesis -/
 macro "safe_bind" : tactic => `(tactic| (refine Safe.bind (by assumption) ?_; intro _ _))
